@@ -154,6 +154,7 @@ class World(object):
     def __init__(self, oracles=(), profile=None):
         self.slots = []
         self.containers = []      # [obj, pristine]
+        self.configs = []         # caller-owned Config instances handed to constructors (config=)
         self.template = None      # slot index whose object is Fxp.template
         self.all_cbs = []
         self._cid = 0
@@ -547,6 +548,10 @@ class World(object):
             args['raw'] = True
         if ncb:
             args['callbacks'] = cbs
+        if op.get('cfg') is not None and self.configs:
+            args['config'] = self.configs[op['cfg'] % len(self.configs)]
+            st.extra['cfg'] = op['cfg'] % len(self.configs)
+            self.bump('caller_config_used')
         if op.get('dtype') is not None:
             x = Fxp(None if val is None else V.carrier(val), dtype=op['dtype'], **args, **kw)
         else:
@@ -1272,6 +1277,33 @@ class World(object):
         yield
         c = V.carrier(st.op['spec'])
         self.containers.append([c, copy.deepcopy(c)])
+
+    def op_cfg_new(self, st):
+        """The caller builds its own Config (optionally naming a live object as result register)."""
+        op = st.op
+        if len(self.configs) >= 3:
+            raise Skip('configs full')
+        st.kind = 'env'
+        st.pure = True
+        r = None
+        if op.get('reg') is not None:
+            r = self.ref(op['reg'])
+        yield
+        kw = dict(op.get('kw') or {})
+        if r is not None:
+            kw[op.get('field', 'op_out')] = self.obj(r)
+        self.configs.append(Config(**kw))
+
+    def op_cfg_mutate(self, st):
+        """The caller changes its own Config after having used it: no object may notice."""
+        op = st.op
+        if not self.configs:
+            raise Skip('no config')
+        st.kind = 'env'
+        st.pure = True
+        yield
+        setattr(self.configs[op['c'] % len(self.configs)], op['field'], op['value'])
+        self.bump('fault_F6_caller_config_mutated')
 
     def op_cont_mutate(self, st):
         op = st.op
